@@ -1772,6 +1772,18 @@ def _type_set(nn, modname, t):
     return None
 
 
+def _is_element_assert(e):
+    """assert all(type(x) in TYPES for x in container)  (possibly through a try / except flag): the per-element type test, not a test of the container as a whole."""
+    c0 = strip(e["cond"])
+    if head(c0) == "anyof" and len(c0[1]) == 2 and strip(c0[1][1]) == FALSE:
+        c0 = strip(c0[1][0])
+    if not (is_call(c0, "builtins.all") and len(c0[2]) == 1 and head(strip(c0[2][0])) == "comp"):
+        return False
+    cp = strip(c0[2][0])
+    c = strip(cp[2])
+    return len(cp[3]) == 1 and head(c) == "cmp" and c[1] == "in" and is_call(c[2], "builtins.type")
+
+
 def check_validation(r, rule):
     """_check_common_input holds, for each argument, assertions whose conjunction is equivalent to the specified test; every engine calls it first."""
     from ..cond import compare_trees
@@ -1801,7 +1813,7 @@ def check_validation(r, rule):
         sp = r.A.summarize_source(fsrc, "v", "pyrepseq.nn").ret
         # the assertions that speak about this argument only; their conjunction must be the specified test
         par = ("param", pnames[slot])
-        mine = [e for e in uncond if {x for x in walk(strip_all(e["cond"])) if x[0] == "param"} == {par}]
+        mine = [e for e in uncond if {x for x in walk(strip_all(e["cond"])) if x[0] == "param"} == {par} and not _is_element_assert(e)]
         hit = None
         if mine:
             conds = tuple(norm(e["cond"]) for e in mine)
@@ -1817,6 +1829,8 @@ def check_validation(r, rule):
     def elem_asserts_of(summ, container, ctx_guards, modname):
         for e in summ.events_of("assert"):
             c0 = strip(e["cond"])
+            if head(c0) == "anyof" and len(c0[1]) == 2 and strip(c0[1][1]) == FALSE:
+                c0 = strip(c0[1][0])       # flag = try: all(...) except TypeError: False ; assert flag  - the assertion holds only through the first alternative
             if not e.ctx.loops and is_call(c0, "builtins.all") and len(c0[2]) == 1 and head(strip(c0[2][0])) == "comp" and len(strip(c0[2][0])[3]) == 1:
                 # assert all(type(x) in TYPES for x in container)
                 cp = strip(c0[2][0])
@@ -2300,6 +2314,50 @@ def engine_sites_safe(nn, mode):
         return [("symdel-self", st, seqs, seqs, "struct", False) for st in symdel_self_sites(nn, mode)]
 
 
+def check_lookup_index(r, rule):
+    """LookupDB.__init__ files every position under its sequence: one loop over enumerate(seqs), an insertion on every path, no element skipped."""
+    nn = get_nn(r)
+    q = MOD + "LookupDB.__init__"
+    if q not in nn.P.functions:
+        r.rep.require(False, f"{q} not found (anchor vanished); cannot decide [{rule}]")
+        return
+    s = nn.summary(q)
+    r.rep.analysed(q)
+    target = None
+    for e in s.events_of("setattr"):
+        if e["name"] == "seq_dict":
+            target = e["value"]
+    if target is None:
+        r.rep.require(False, f"{q}: attribute seq_dict is not initialised (the index was restructured); cannot decide [{rule}]")
+        return
+    mi = nn._map_local(q, target)
+    r.rep.ob(rule, q, mi is not None and mi["key"] == ("elem",), "the dictionary maps each sequence to the positions at which it occurs", wh(r, q, s.func.node),
+             expected="key = the sequence itself, values = positions of enumerate(seqs)", found=str(mi and mi["key"]), key="lookup index key")
+    ins = []
+    for e in s.events:
+        if e.kind == "setitem" and e["obj"] == target:
+            ins.append(e)
+        elif e.kind == "call" and is_mcall(e["term"], "append"):
+            recv = strip(strip(e["term"][1])[1])
+            if (head(recv) == "sub" and recv[1] == target) or (is_mcall(recv, "setdefault") and strip(recv[1])[1] == target) or (is_mcall(recv, "get") and strip(recv[1])[1] == target):
+                ins.append(e)
+    if not ins:
+        r.rep.require(False, f"{q}: no insertion into seq_dict found (idiom outside list); cannot decide [{rule}]")
+        return
+    sp = CondSpace()
+    asserted = {strip_all(a_["cond"]) for a_ in s.events_of("assert")}
+    for e in ins:
+        for gt, pol in e.ctx.guards:
+            sp.collect(gt)
+    covered, cex = True, ""
+    for val in sp.valuations():
+        if not any(all(sp.truth(gt, val) == pol for gt, pol in e.ctx.guards) for e in ins):
+            covered, cex = False, sp.describe(val)
+            break
+    r.rep.ob(rule, q, covered and len({e.ctx.loops for e in ins}) == 1 and all(len(e.ctx.loops) == 1 for e in ins), "every position is filed under its sequence (no element is left out of the index)",
+             wh(r, q, ins[0].node), expected="append when the key exists, new list otherwise, for every element", found="all paths insert" if covered else f"no insertion when {cex}", key="lookup index every path")
+
+
 def check_candidates(r, prop, engines=("symdel", "hash", "kdtree"), cds=("none", "hamming", "callable")):
     """Hypotheses of the candidate lemmas (A.1, A.2, A.4) on which completeness of every search mode rests."""
     if "symdel" in engines:
@@ -2307,6 +2365,7 @@ def check_candidates(r, prop, engines=("symdel", "hash", "kdtree"), cds=("none",
         check_index_builder(r, prop + "-CAND")
         check_symdel_pairs(r, prop + "-CAND", cds)
     if "hash" in engines:
+        check_lookup_index(r, prop + "-CAND")
         check_bfs(r, prop + "-CAND")
         check_edit_generators(r, prop + "-CAND")
     if "kdtree" in engines:
